@@ -127,6 +127,20 @@ pub enum Verdict {
     HarnessError(String),
 }
 
+thread_local! { static WATCHDOG_HIT: Cell<bool> = Cell::new(false); }
+/// called by the run machinery when a real-thread run had to be abandoned by a wall-clock watchdog
+pub fn note_watchdog() {
+    WATCHDOG_HIT.with(|w| w.set(true));
+}
+/// a verdict obtained while a watchdog expired is inconclusive, never a violation
+pub fn settle_watchdog(v: Verdict) -> Verdict {
+    if WATCHDOG_HIT.with(|w| w.replace(false)) {
+        Verdict::HarnessError("a real-thread run did not return and was abandoned by the wall-clock watchdog (inconclusive)".into())
+    } else {
+        v
+    }
+}
+
 pub struct Ctx {
     pub prop: String,
     pub tier: Tier,
@@ -146,6 +160,7 @@ impl Ctx {
     }
     /// Accounts one executed (non-proptest) case.
     pub fn account(&mut self, part: &str, obs: CaseObs, case_json: impl FnOnce() -> Value, verdict: Verdict) {
+        let verdict = settle_watchdog(verdict);
         let evals = obs.evals.max(1);
         self.stats.evaluations += evals;
         for l in &obs.labels {
@@ -202,7 +217,7 @@ impl Ctx {
         let me = RefCell::new(&mut *self);
         let res = runner.run(&strat, |t| {
             let mut obs = CaseObs::default();
-            let v = test(&t, &mut obs);
+            let v = settle_watchdog(test(&t, &mut obs));
             if !failed.get() {
                 let mut me = me.borrow_mut();
                 match &v {
